@@ -121,3 +121,47 @@ def run(ctx):
                 else:
                     r.fail(rule, key, 'arm %s drops a drained data-change notification (only its sequence number is recycled): sampled changes are lost when the interval elapses with this action' % name, loc=hb.loc)
             r.floor(rule, 'action_arms', n, 5)
+    data_wins(ctx)
+
+
+def data_wins(ctx, rule='data-wins-over-keep-alive'):
+    """over the enumerated decision table of update_state: whenever publishing is enabled, data is available and a publish
+    request can be answered, the row taken answers with the notifications - never with a keep-alive and never with nothing
+    (tick_monitored_items has already drained the changes; any other action drops them, see the consumption rule above)"""
+    from .substate import rows_of, compatible, describe
+    r = ctx.r
+    rows = rows_of(ctx)
+    if not rows:
+        r.lost(rule, 'update_state', 'decision table of update_state could not be enumerated'); return
+    loc = ctx.db.body('server::subscriptions::subscription::Subscription::update_state').loc
+    def fixed(x, k, v):
+        return x['inputs'].get(k) is v
+    def st(x, *names):
+        s = x['inputs'].get('state')
+        return s is not None and s[0] == 'is' and s[1] in names
+    alive = [x for x in rows if x['inputs'].get('lifetime_is_1') is not True]
+    # timer expiry with a queued request
+    # a path is taken by every input consistent with the atoms it tests: an atom it does not test is free
+    def may(x, k, v):
+        cur = x['inputs'].get(k)
+        return cur is None or cur is v
+    t = [x for x in alive if st(x, 'Normal', 'KeepAlive') and fixed(x, 'timer_expired', True) and may(x, 'req_queued', True) and
+         may(x, 'publishing_enabled', True) and may(x, 'notifications_available', True) and x['row'] not in (None, 'None0')]
+    # a publish request arriving while Late with data waiting, or in Normal with more notifications
+    q = [x for x in alive if st(x, 'Late') and fixed(x, 'receive_publish_request', True) and may(x, 'publishing_enabled', True) and
+         (may(x, 'notifications_available', True) or may(x, 'more_notifications', True))]
+    q += [x for x in alive if st(x, 'Normal') and fixed(x, 'receive_publish_request', True) and may(x, 'publishing_enabled', True) and may(x, 'more_notifications', True)]
+    r.count('data_available_paths', len(t) + len(q))
+    r.floor(rule, 'data_available_paths', len(t) + len(q), 12)
+    bad = [x for x in t + q if x['action'] != 'ReturnNotifications']
+    if bad:
+        seen = set()
+        for x in bad:
+            k = 'row:%s' % x['row']
+            if k in seen:
+                continue
+            seen.add(k)
+            r.fail(rule, k, 'data is available and a publish request can be answered, but update_state takes row %s with action %s: the drained changes are not delivered'
+                   % (x['row'], x['action']), detail=describe(x), loc=loc, witness={'abstract_input': {a: str(v) for a, v in x['inputs'].items()}})
+    else:
+        r.ok(rule, 'rows', 'all %d decision paths with data available and an answerable publish request end in ReturnNotifications' % (len(t) + len(q)), loc=loc)
